@@ -318,7 +318,10 @@ pub fn gen_value(rng: &mut Rng, class: SizeClass) -> String {
 }
 
 pub fn gen_payload(rng: &mut Rng, class: SizeClass) -> Vec<u8> {
-    let r = rng.below(100);
+    let mut r = rng.below(100);
+    if class == SizeClass::Huge && r >= 30 {
+        r = 99; // most payloads of a huge-class stream are huge
+    }
     if r < 40 {
         rng.pick(SPECIAL_PAYLOADS).to_vec()
     } else if r < 80 {
@@ -339,6 +342,7 @@ pub fn gen_payload(rng: &mut Rng, class: SizeClass) -> Vec<u8> {
             SizeClass::Large => *rng.pick(&[8192usize, 8191, 12000, 16384, 16385, 40000]),
             SizeClass::Huge => *rng.pick(&[
                 65535usize, 65536, 65537, 131073, 262144, 700_000, 1_048_577, 1_100_000, 2_200_000,
+                2_200_000, 2_500_000, 4_300_000,
             ]),
         };
         rng.bytes(n)
@@ -434,7 +438,7 @@ pub fn gen_class(rng: &mut Rng) -> SizeClass {
 
 /// Like `gen_class`, with a small share of huge payloads (checks that can afford them).
 pub fn gen_class_with_huge(rng: &mut Rng) -> SizeClass {
-    if rng.chance(1, 120) {
+    if rng.chance(1, 40) {
         SizeClass::Huge
     } else {
         gen_class(rng)
